@@ -1,34 +1,34 @@
 import TapkeeVerif.Proofs.QuadTreeInsert
 /-!
 Consequences of the invariant `WF` for what the tree *stores* (C18): `fillList`, `getAllIndices`, `isCorrect`,
-the geometric route `locate`, and the exact-mass form of the invariant for inputs without coincident points.
+the geometric route `locate`.
 -/
 namespace TapkeeVerif.QuadTree
 
 variable {K : Type} [Field K] [LinearOrder K] [IsStrictOrderedRing K]
 set_option linter.unusedSectionVars false
 
-/-- `fill` over any index list: the accepted indices are those inside the node's closed cell, in order -/
+/-- `fill` over any index list: the accepted points are those inside the node's closed cell, in order -/
 theorem fillList_spec (data : Nat → K × K) (fuel : Nat) :
-    ∀ (js : List Nat) (t : Tree K) (is : List Nat) (t' : Tree K), WF data t is →
+    ∀ (js : List Nat) (t : Tree K) (ps : List (K × K)) (t' : Tree K), WF data t ps →
       fillList data fuel t js = some t' →
-      WF data t' (is ++ js.filter fun j => t.cell.containsPoint (data j)) ∧ t'.cell = t.cell := by
+      WF data t' (ps ++ (js.map data).filter fun p => t.cell.containsPoint p) ∧ t'.cell = t.cell := by
   intro js
   induction js with
   | nil =>
-    intro t is t' hwf h
+    intro t ps t' hwf h
     simp only [fillList, Option.some.injEq] at h
     subst h
     simpa using hwf
   | cons j js ih =>
-    intro t is t' hwf h
+    intro t ps t' hwf h
     simp only [fillList] at h
     cases hi : insert data fuel t j with
     | none => simp [hi] at h
     | some r =>
       obtain ⟨t1, ok⟩ := r
       simp only [hi] at h
-      have S := insert_spec data fuel t is j hwf _ hi
+      have S := insert_spec data fuel t ps j hwf _ hi
       cases hc : t.cell.containsPoint (data j) with
       | false =>
         have e := S.1 hc
@@ -44,61 +44,241 @@ theorem fillList_spec (data : Nat → K × K) (fuel : Nat) :
         refine ⟨?_, h2.trans hcell⟩
         simpa [List.filter, hc, List.append_assoc] using h1
 
+/-- the coordinates of the points the root accepts, in insertion order -/
+def acceptedPts (data : Nat → K × K) (root : Cell K) (is : List Nat) : List (K × K) :=
+  (is.map data).filter fun p => root.containsPoint p
+
 /-- the tree built from an empty root over the index list `is` -/
 theorem buildIn_WF (data : Nat → K × K) (fuel : Nat) (root : Cell K) (is : List Nat) (t : Tree K)
-    (h : buildIn data fuel root is = some t) :
-    WF data t (is.filter fun j => root.containsPoint (data j)) ∧ t.cell = root := by
+    (h : buildIn data fuel root is = some t) : WF data t (acceptedPts data root is) ∧ t.cell = root := by
   have := fillList_spec data fuel is (emptyLeaf root) [] t (WF_emptyLeaf data root) h
-  simpa using this
+  simpa [acceptedPts] using this
 
-/-- every stored index was inserted -/
-theorem allIndices_sub (data : Nat → K × K) : ∀ (t : Tree K) (is : List Nat), WF data t is →
-    ∀ j ∈ allIndices t, j ∈ is := by
+/-! ### only inserted indices are stored -/
+
+/-- every stored index satisfies `S` -/
+def AllIn (S : Nat → Prop) (t : Tree K) : Prop := ∀ j ∈ allIndices t, S j
+
+theorem AllIn_emptyLeaf (S : Nat → Prop) (b : Cell K) : AllIn S (emptyLeaf b) := by
+  intro j hj; simp [emptyLeaf, allIndices] at hj
+
+theorem AllIn_node (S : Nat → Prop) (b : Cell K) (cum : Nat) (com : K × K) (nw ne sw se : Tree K) :
+    AllIn S (.node b cum com nw ne sw se) ↔ AllIn S nw ∧ AllIn S ne ∧ AllIn S sw ∧ AllIn S se := by
+  simp only [AllIn, allIndices, List.mem_append]
+  constructor
+  · intro h
+    exact ⟨fun j hj => h j (Or.inl (Or.inl (Or.inl hj))), fun j hj => h j (Or.inl (Or.inl (Or.inr hj))),
+      fun j hj => h j (Or.inl (Or.inr hj)), fun j hj => h j (Or.inr hj)⟩
+  · rintro ⟨h1, h2, h3, h4⟩ j (((hj | hj) | hj) | hj)
+    · exact h1 j hj
+    · exact h2 j hj
+    · exact h3 j hj
+    · exact h4 j hj
+
+theorem tryChildren_allIn (S : Nat → Prop) (ins : Tree K → Option (Tree K × Bool))
+    (hins : ∀ c r, AllIn S c → ins c = some r → AllIn S r.1) (nw ne sw se : Tree K)
+    (h1 : AllIn S nw) (h2 : AllIn S ne) (h3 : AllIn S sw) (h4 : AllIn S se)
+    (res : (Tree K × Tree K × Tree K × Tree K) × Bool) (h : tryChildren ins nw ne sw se = some res) :
+    AllIn S res.1.1 ∧ AllIn S res.1.2.1 ∧ AllIn S res.1.2.2.1 ∧ AllIn S res.1.2.2.2 := by
+  unfold tryChildren at h
+  cases e1 : ins nw with
+  | none => simp [e1] at h
+  | some r1 =>
+    have a1 := hins _ _ h1 e1
+    obtain ⟨t1, b1⟩ := r1
+    cases b1 with
+    | true => simp only [e1, Option.some.injEq] at h; subst h; exact ⟨a1, h2, h3, h4⟩
+    | false =>
+      simp only [e1] at h
+      cases e2 : ins ne with
+      | none => simp [e2] at h
+      | some r2 =>
+        have a2 := hins _ _ h2 e2
+        obtain ⟨t2, b2⟩ := r2
+        cases b2 with
+        | true => simp only [e2, Option.some.injEq] at h; subst h; exact ⟨a1, a2, h3, h4⟩
+        | false =>
+          simp only [e2] at h
+          cases e3 : ins sw with
+          | none => simp [e3] at h
+          | some r3 =>
+            have a3 := hins _ _ h3 e3
+            obtain ⟨t3, b3⟩ := r3
+            cases b3 with
+            | true => simp only [e3, Option.some.injEq] at h; subst h; exact ⟨a1, a2, a3, h4⟩
+            | false =>
+              simp only [e3] at h
+              cases e4 : ins se with
+              | none => simp [e4] at h
+              | some r4 =>
+                have a4 := hins _ _ h4 e4
+                simp only [e4, Option.some.injEq] at h; subst h; exact ⟨a1, a2, a3, a4⟩
+
+theorem handDown_allIn (S : Nat → Prop) (ins : Tree K → Option (Tree K × Bool))
+    (hins : ∀ c r, AllIn S c → ins c = some r → AllIn S r.1) :
+    ∀ (n : Nat) (nw ne sw se : Tree K), AllIn S nw → AllIn S ne → AllIn S sw → AllIn S se →
+      ∀ res, handDown ins n (nw, ne, sw, se) = some res →
+        AllIn S res.1 ∧ AllIn S res.2.1 ∧ AllIn S res.2.2.1 ∧ AllIn S res.2.2.2 := by
+  intro n
+  induction n with
+  | zero =>
+    intro nw ne sw se h1 h2 h3 h4 res h
+    simp only [handDown, Option.some.injEq] at h
+    subst h; exact ⟨h1, h2, h3, h4⟩
+  | succ n ih =>
+    intro nw ne sw se h1 h2 h3 h4 res h
+    simp only [handDown] at h
+    cases e : tryChildren ins nw ne sw se with
+    | none => simp [e] at h
+    | some k =>
+      obtain ⟨⟨a, b, c, d⟩, ok⟩ := k
+      simp only [e] at h
+      obtain ⟨a1, a2, a3, a4⟩ := tryChildren_allIn S ins hins nw ne sw se h1 h2 h3 h4 _ e
+      exact ih a b c d a1 a2 a3 a4 res h
+
+/-- `insert` stores nothing but residents it already had and the new index -/
+theorem insert_allIn (data : Nat → K × K) (S : Nat → Prop) : ∀ (fuel : Nat) (t : Tree K) (i : Nat)
+    (r : Tree K × Bool), AllIn S t → S i → insert data fuel t i = some r → AllIn S r.1 := by
+  intro fuel
+  induction fuel with
+  | zero =>
+    intro t i r ht hi h
+    cases t with
+    | leaf b cum com res =>
+      by_cases hc : b.containsPoint (data i) = false
+      · simp only [insert, hc, if_true, Option.some.injEq] at h; subst h; exact ht
+      · have hc' : b.containsPoint (data i) = true := by simpa using hc
+        cases res with
+        | none =>
+          simp only [insert, hc', Bool.true_eq_false, if_false, Option.some.injEq] at h; subst h
+          intro j hj; simp [allIndices] at hj; subst hj; exact hi
+        | some q =>
+          by_cases hs : samePoint (data i) (data q) = true
+          · simp only [insert, hc', Bool.true_eq_false, if_false, hs, if_true, Option.some.injEq] at h; subst h
+            intro j hj; exact ht j (by simpa [allIndices] using hj)
+          · have hs' : samePoint (data i) (data q) = false := by simpa using hs
+            simp [insert, hc', hs'] at h
+    | node b cum com nw ne sw se =>
+      by_cases hc : b.containsPoint (data i) = false
+      · simp only [insert, hc, if_true, Option.some.injEq] at h; subst h; exact ht
+      · have hc' : b.containsPoint (data i) = true := by simpa using hc
+        simp [insert, hc'] at h
+  | succ f ih =>
+    intro t i r ht hi h
+    cases t with
+    | leaf b cum com res =>
+      by_cases hc : b.containsPoint (data i) = false
+      · simp only [insert, hc, if_true, Option.some.injEq] at h; subst h; exact ht
+      · have hc' : b.containsPoint (data i) = true := by simpa using hc
+        cases res with
+        | none =>
+          simp only [insert, hc', Bool.true_eq_false, if_false, Option.some.injEq] at h; subst h
+          intro j hj; simp [allIndices] at hj; subst hj; exact hi
+        | some q =>
+          by_cases hs : samePoint (data i) (data q) = true
+          · simp only [insert, hc', Bool.true_eq_false, if_false, hs, if_true, Option.some.injEq] at h; subst h
+            intro j hj; exact ht j (by simpa [allIndices] using hj)
+          · have hs' : samePoint (data i) (data q) = false := by simpa using hs
+            have hq : S q := ht q (by simp [allIndices])
+            simp only [insert, hc', Bool.true_eq_false, if_false, hs', Bool.false_eq_true] at h
+            cases h1 : handDown (fun c => insert data f c q) cum
+                (emptyLeaf (cellNW b), emptyLeaf (cellNE b), emptyLeaf (cellSW b), emptyLeaf (cellSE b)) with
+            | none => simp [h1] at h
+            | some k1 =>
+              obtain ⟨nw, ne, sw, se⟩ := k1
+              obtain ⟨a1, a2, a3, a4⟩ := handDown_allIn S (fun c => insert data f c q)
+                (fun c r hc hr => ih c q r hc hq hr) cum _ _ _ _ (AllIn_emptyLeaf S _) (AllIn_emptyLeaf S _)
+                (AllIn_emptyLeaf S _) (AllIn_emptyLeaf S _) _ h1
+              simp only [h1] at h
+              cases h2 : tryChildren (fun c => insert data f c i) nw ne sw se with
+              | none => simp [h2] at h
+              | some k2 =>
+                obtain ⟨⟨nw', ne', sw', se'⟩, ok2⟩ := k2
+                obtain ⟨b1, b2, b3, b4⟩ := tryChildren_allIn S (fun c => insert data f c i)
+                  (fun c r hc hr => ih c i r hc hi hr) nw ne sw se a1 a2 a3 a4 _ h2
+                simp only [h2, Option.some.injEq] at h; subst h
+                exact (AllIn_node S _ _ _ _ _ _ _).2 ⟨b1, b2, b3, b4⟩
+    | node b cum com nw ne sw se =>
+      by_cases hc : b.containsPoint (data i) = false
+      · simp only [insert, hc, if_true, Option.some.injEq] at h; subst h; exact ht
+      · have hc' : b.containsPoint (data i) = true := by simpa using hc
+        obtain ⟨a1, a2, a3, a4⟩ := (AllIn_node S _ _ _ _ _ _ _).1 ht
+        simp only [insert, hc', Bool.true_eq_false, if_false] at h
+        cases h2 : tryChildren (fun c => insert data f c i) nw ne sw se with
+        | none => simp [h2] at h
+        | some k2 =>
+          obtain ⟨⟨nw', ne', sw', se'⟩, ok2⟩ := k2
+          obtain ⟨b1, b2, b3, b4⟩ := tryChildren_allIn S (fun c => insert data f c i)
+            (fun c r hc hr => ih c i r hc hi hr) nw ne sw se a1 a2 a3 a4 _ h2
+          simp only [h2, Option.some.injEq] at h; subst h
+          exact (AllIn_node S _ _ _ _ _ _ _).2 ⟨b1, b2, b3, b4⟩
+
+theorem fillList_allIn (data : Nat → K × K) (S : Nat → Prop) (fuel : Nat) : ∀ (js : List Nat) (t t' : Tree K),
+    AllIn S t → (∀ j ∈ js, S j) → fillList data fuel t js = some t' → AllIn S t' := by
+  intro js
+  induction js with
+  | nil => intro t t' ht _ h; simp only [fillList, Option.some.injEq] at h; subst h; exact ht
+  | cons j js ih =>
+    intro t t' ht hS h
+    simp only [fillList] at h
+    cases hi : insert data fuel t j with
+    | none => simp [hi] at h
+    | some r =>
+      simp only [hi] at h
+      exact ih _ _ (insert_allIn data S fuel t j r ht (hS j (by simp)) hi) (fun k hk => hS k (by simp [hk])) h
+
+/-- every index stored in the built tree is one of the inserted indices -/
+theorem buildIn_stored_sub (data : Nat → K × K) (fuel : Nat) (root : Cell K) (is : List Nat) (t : Tree K)
+    (h : buildIn data fuel root is = some t) : ∀ j ∈ allIndices t, j ∈ is :=
+  fillList_allIn data (fun j => j ∈ is) fuel is _ t (AllIn_emptyLeaf _ root) (fun _ hj => hj) h
+
+/-! ### stored points and routes -/
+
+/-- the coordinates of a stored index are among the node's accepted points -/
+theorem stored_mem (data : Nat → K × K) : ∀ (t : Tree K) (ps : List (K × K)), WF data t ps →
+    ∀ j ∈ allIndices t, data j ∈ ps := by
   intro t
   induction t with
   | leaf b cum com res =>
-    intro is hwf j hj
+    intro ps hwf j hj
     cases res with
     | none => simp [allIndices] at hj
     | some r =>
       simp only [WF] at hwf
-      obtain ⟨dups, rfl, -⟩ := hwf
+      obtain ⟨hne, -, -, hall⟩ := hwf
       simp only [allIndices, List.mem_singleton] at hj
-      simp [hj]
+      subst hj
+      obtain ⟨q, hq⟩ := List.exists_mem_of_ne_nil ps hne
+      rw [← (hall q hq).2]; exact hq
   | node b cum com nw ne sw se ih1 ih2 ih3 ih4 =>
-    intro is hwf j hj
+    intro ps hwf j hj
     simp only [WF] at hwf
-    obtain ⟨r, dups, rest, rfl, -, -, -, -, -, -, -, -, -, w1, w2, w3, w4⟩ := hwf
-    have key : j ∈ r :: rest := by
-      simp only [allIndices, List.mem_append] at hj
-      rcases hj with ((hj | hj) | hj) | hj
-      · exact (List.mem_filter.1 (ih1 _ w1 j hj)).1
-      · exact (List.mem_filter.1 (ih2 _ w2 j hj)).1
-      · exact (List.mem_filter.1 (ih3 _ w3 j hj)).1
-      · exact (List.mem_filter.1 (ih4 _ w4 j hj)).1
-    simp only [List.mem_cons, List.mem_append] at key ⊢
-    rcases key with h | h
-    · exact Or.inl h
-    · exact Or.inr (Or.inr h)
+    obtain ⟨-, -, -, -, -, -, -, -, w1, w2, w3, w4⟩ := hwf
+    simp only [allIndices, List.mem_append] at hj
+    rcases hj with ((hj | hj) | hj) | hj
+    · exact (List.mem_filter.1 (ih1 _ w1 j hj)).1
+    · exact (List.mem_filter.1 (ih2 _ w2 j hj)).1
+    · exact (List.mem_filter.1 (ih3 _ w3 j hj)).1
+    · exact (List.mem_filter.1 (ih4 _ w4 j hj)).1
 
 /-- a stored index satisfies the route predicate of the child it is stored under -/
-theorem allIndices_route (data : Nat → K × K) (t : Tree K) (l : List Nat) (f : Nat → Bool)
-    (h : WF data t (l.filter f)) : ∀ j ∈ allIndices t, f j = true := by
+theorem allIndices_route (data : Nat → K × K) (t : Tree K) (l : List (K × K)) (f : K × K → Bool)
+    (h : WF data t (l.filter f)) : ∀ j ∈ allIndices t, f (data j) = true := by
   intro j hj
-  exact (List.mem_filter.1 (allIndices_sub data t _ h j hj)).2
+  exact (List.mem_filter.1 (stored_mem data t _ h j hj)).2
 
 /-- stored points have pairwise different coordinates (in particular no index is stored twice) -/
-theorem allIndices_pairwise (data : Nat → K × K) : ∀ (t : Tree K) (is : List Nat), WF data t is →
+theorem allIndices_pairwise (data : Nat → K × K) : ∀ (t : Tree K) (ps : List (K × K)), WF data t ps →
     (allIndices t).Pairwise fun a c => data a ≠ data c := by
   intro t
   induction t with
   | leaf b cum com res =>
-    intro is _
+    intro ps _
     cases res <;> simp [allIndices]
   | node b cum com nw ne sw se ih1 ih2 ih3 ih4 =>
-    intro is hwf
+    intro ps hwf
     simp only [WF] at hwf
-    obtain ⟨r, dups, rest, rfl, -, -, -, -, -, -, -, -, -, w1, w2, w3, w4⟩ := hwf
+    obtain ⟨-, -, -, -, -, -, -, -, w1, w2, w3, w4⟩ := hwf
     have r1 := allIndices_route data nw _ _ w1
     have r2 := allIndices_route data ne _ _ w2
     have r3 := allIndices_route data sw _ _ w3
@@ -137,9 +317,9 @@ theorem allIndices_pairwise (data : Nat → K × K) : ∀ (t : Tree K) (is : Lis
         rw [h3.2] at h4
         exact absurd h4.1.2 (by simp)
 
-theorem allIndices_nodup (data : Nat → K × K) (t : Tree K) (is : List Nat) (h : WF data t is) :
+theorem allIndices_nodup (data : Nat → K × K) (t : Tree K) (ps : List (K × K)) (h : WF data t ps) :
     (allIndices t).Nodup :=
-  (allIndices_pairwise data t is h).imp fun hne heq => hne (by rw [heq])
+  (allIndices_pairwise data t ps h).imp fun hne heq => hne (by rw [heq])
 
 /-- exactly one route predicate holds for a point of the parent's closed cell -/
 theorem route_cases (b : Cell K) (p : K × K) (h : b.containsPoint p = true) :
@@ -149,81 +329,65 @@ theorem route_cases (b : Cell K) (p : K × K) (h : b.containsPoint p = true) :
   cases h1 : (cellNW b).containsPoint p <;> cases h2 : (cellNE b).containsPoint p <;>
     cases h3 : (cellSW b).containsPoint p <;> cases h4 : (cellSE b).containsPoint p <;> simp_all
 
-/-- every accepted index is represented: the geometric route of its coordinates ends in a leaf whose resident has
-    the same coordinates (itself, or the point it coincides with) -/
-theorem represented (data : Nat → K × K) : ∀ (t : Tree K) (is : List Nat), WF data t is →
-    ∀ i ∈ is, ∃ r ∈ allIndices t, data r = data i ∧ locate (data i) t = some r := by
+/-- every accepted point is represented: its geometric route ends in a leaf whose resident has exactly these
+    coordinates (the point itself, or the one it coincides with) -/
+theorem represented (data : Nat → K × K) : ∀ (t : Tree K) (ps : List (K × K)), WF data t ps →
+    ∀ p ∈ ps, ∃ r ∈ allIndices t, data r = p ∧ locate p t = some r := by
   intro t
   induction t with
   | leaf b cum com res =>
-    intro is hwf i hi
+    intro ps hwf p hp
     cases res with
     | none =>
       simp only [WF] at hwf
-      simp [hwf.1] at hi
+      simp [hwf.1] at hp
     | some r =>
       simp only [WF] at hwf
-      obtain ⟨dups, rfl, -, -, hall⟩ := hwf
-      obtain ⟨hc, he⟩ := hall i hi
+      obtain ⟨-, -, -, hall⟩ := hwf
+      obtain ⟨hc, he⟩ := hall p hp
       exact ⟨r, by simp [allIndices], he.symm, by simp [locate, hc]⟩
   | node b cum com nw ne sw se ih1 ih2 ih3 ih4 =>
-    intro is hwf i hi
+    intro ps hwf p hp
     simp only [WF] at hwf
-    obtain ⟨r, dups, rest, rfl, -, -, hall, hdups, -, e1, e2, e3, e4, w1, w2, w3, w4⟩ := hwf
-    -- reduce to a member of `r :: rest` with the same coordinates
-    have hred : ∃ j ∈ r :: rest, data j = data i := by
-      simp only [List.mem_cons, List.mem_append] at hi
-      rcases hi with rfl | hi | hi
-      · exact ⟨i, by simp, rfl⟩
-      · exact ⟨r, by simp, (hdups i hi).symm⟩
-      · exact ⟨i, by simp [hi], rfl⟩
-    obtain ⟨j, hj, hji⟩ := hred
-    have hcj : b.containsPoint (data j) = true := by
-      apply hall
-      simp only [List.mem_cons, List.mem_append] at hj ⊢
-      rcases hj with h | h
-      · exact Or.inl h
-      · exact Or.inr (Or.inr h)
-    have hci : b.containsPoint (data i) = true := hji ▸ hcj
-    rcases route_cases b (data j) hcj with h | h | h | h
-    · obtain ⟨s, hs, hd, hl⟩ := ih1 _ w1 j (List.mem_filter.2 ⟨hj, h⟩)
-      refine ⟨s, by simp [allIndices, hs], hd.trans hji, ?_⟩
-      rw [← hji]
+    obtain ⟨-, -, hall, -, e1, e2, e3, e4, w1, w2, w3, w4⟩ := hwf
+    have hcp := hall p hp
+    rcases route_cases b p hcp with h | h | h | h
+    · obtain ⟨s, hs, hd, hl⟩ := ih1 _ w1 p (List.mem_filter.2 ⟨hp, h⟩)
+      refine ⟨s, by simp [allIndices, hs], hd, ?_⟩
       simp only [rNW] at h
-      simp [locate, hcj, e1, h, hl]
-    · obtain ⟨s, hs, hd, hl⟩ := ih2 _ w2 j (List.mem_filter.2 ⟨hj, h⟩)
-      refine ⟨s, by simp [allIndices, hs], hd.trans hji, ?_⟩
-      rw [← hji]
+      simp [locate, hcp, e1, h, hl]
+    · obtain ⟨s, hs, hd, hl⟩ := ih2 _ w2 p (List.mem_filter.2 ⟨hp, h⟩)
+      refine ⟨s, by simp [allIndices, hs], hd, ?_⟩
       simp only [rNE, Bool.and_eq_true, Bool.not_eq_true'] at h
-      simp [locate, hcj, e1, e2, h.1, h.2, hl]
-    · obtain ⟨s, hs, hd, hl⟩ := ih3 _ w3 j (List.mem_filter.2 ⟨hj, h⟩)
-      refine ⟨s, by simp [allIndices, hs], hd.trans hji, ?_⟩
-      rw [← hji]
+      simp [locate, hcp, e1, e2, h.1, h.2, hl]
+    · obtain ⟨s, hs, hd, hl⟩ := ih3 _ w3 p (List.mem_filter.2 ⟨hp, h⟩)
+      refine ⟨s, by simp [allIndices, hs], hd, ?_⟩
       simp only [rSW, Bool.and_eq_true, Bool.not_eq_true'] at h
-      simp [locate, hcj, e1, e2, e3, h.1.1, h.1.2, h.2, hl]
-    · obtain ⟨s, hs, hd, hl⟩ := ih4 _ w4 j (List.mem_filter.2 ⟨hj, h⟩)
-      refine ⟨s, by simp [allIndices, hs], hd.trans hji, ?_⟩
-      rw [← hji]
+      simp [locate, hcp, e1, e2, e3, h.1.1, h.1.2, h.2, hl]
+    · obtain ⟨s, hs, hd, hl⟩ := ih4 _ w4 p (List.mem_filter.2 ⟨hp, h⟩)
+      refine ⟨s, by simp [allIndices, hs], hd, ?_⟩
       simp only [rSE, Bool.and_eq_true, Bool.not_eq_true'] at h
-      simp [locate, hcj, e1, e2, e3, h.1.1.1, h.1.1.2, h.1.2, hl]
+      simp [locate, hcp, e1, e2, e3, h.1.1.1, h.1.1.2, h.1.2, hl]
 
 /-- `isCorrect()` holds on every reachable tree -/
-theorem isCorrect_of_WF (data : Nat → K × K) : ∀ (t : Tree K) (is : List Nat), WF data t is →
+theorem isCorrect_of_WF (data : Nat → K × K) : ∀ (t : Tree K) (ps : List (K × K)), WF data t ps →
     isCorrect data t = true := by
   intro t
   induction t with
   | leaf b cum com res =>
-    intro is hwf
+    intro ps hwf
     cases res with
     | none => simp [isCorrect]
     | some r =>
       simp only [WF] at hwf
-      obtain ⟨dups, rfl, -, -, hall⟩ := hwf
-      simpa [isCorrect] using (hall r (by simp)).1
+      obtain ⟨hne, -, -, hall⟩ := hwf
+      obtain ⟨q, hq⟩ := List.exists_mem_of_ne_nil ps hne
+      have := hall q hq
+      simpa [isCorrect, ← this.2] using this.1
   | node b cum com nw ne sw se ih1 ih2 ih3 ih4 =>
-    intro is hwf
+    intro ps hwf
     simp only [WF] at hwf
-    obtain ⟨r, dups, rest, rfl, -, -, -, -, -, -, -, -, -, w1, w2, w3, w4⟩ := hwf
+    obtain ⟨-, -, -, -, -, -, -, -, w1, w2, w3, w4⟩ := hwf
     simp [isCorrect, ih1 _ w1, ih2 _ w2, ih3 _ w3, ih4 _ w4]
 
 end TapkeeVerif.QuadTree
